@@ -195,8 +195,15 @@ Definition pstep (p : pool) (e : pev) : option pool :=
   | PRemove d =>
     let d := Nat.min d (p_target p) in
     let n := List.length (p_running p) in
-    (* idle live workers go first; the rest of the removal retires busy live workers *)
-    let rs := nat_dedup (map (fun r => let idle := (p_target p - (n - r))%nat in (r + (d - idle))%nat) (p_retired p)) in
+    (* the removal takes d live workers; those that are busy are retired (they finish their call first). The pool
+       prefers workers it believes inactive, but that belief lags behind the observable events (a worker whose work
+       function has returned is still marked active for a moment, one that has just taken a call not yet), so WHICH
+       live workers go is not determined by the trace: every split is kept - at least d - idle busy ones (when the
+       idle ones do not suffice), at most all d, and never more than there are live busy workers *)
+    let rs := nat_dedup (flat_map (fun r => let idle := (p_target p - (n - r))%nat in
+                                            map (fun j => (r + j)%nat)
+                                                (seq (d - idle) (Nat.min d (n - r) - (d - idle) + 1)))
+                                  (p_retired p)) in
     Some (mkPool (p_target p - d)%nat (p_running p) (p_waiting p) (p_cancelled p) (p_started p) (p_done p)
                  (filter (fun r => Nat.leb r n) rs))
   end.
